@@ -13,6 +13,6 @@ CFG = dict(
     level_note="Trusted: Coq kernel + vm_compute, no axioms; translator tr-build; harness; go/build as the reference. interp/build.go is modelled by hand and tied by correspondence (about 40k cases per quick run including an exhaustive file-name enumeration).",
     technique="Coq proof by induction over header structure + regenerated tables + model/implementation correspondence evaluated in Coq",
     assumptions=["go/ast CommentGroup.Text is modelled for // comments only; block comments are outside the model",
-                 "release tags go1.N are validated by correspondence, not covered by C17_plusbuild_partial"],
+                 "non-canonical release tags (go1.0, go1.01, go1.+5) are in the known-finding region 'vocab'"],
 )
 CFG["id"] = "C17"
